@@ -86,6 +86,7 @@ func (h *Handler) handleDiscover(p packet.DHCP4, options packet.DHCP4Options) (d
 		if err := h.allocIPOffer(lease, reqIP); err != nil {
 			Logger.Msg("discover all ips allocated, failing silently").Error(err).Write()
 			h.delete(lease)
+			h.saveConfig(h.filename) // the deleted lease may have been in the lease file
 			return nil
 		}
 	}
